@@ -315,6 +315,8 @@ var (
 )
 
 // FetchItemDataBodySection holds data returned by FETCH BODY[].
+//
+// Literal is nil if the server returned NIL for this section.
 type FetchItemDataBodySection struct {
 	Section *imap.FetchItemBodySection
 	Literal imap.LiteralReader
@@ -323,10 +325,14 @@ type FetchItemDataBodySection struct {
 func (FetchItemDataBodySection) fetchItemData() {}
 
 func (item FetchItemDataBodySection) discard() {
-	io.Copy(io.Discard, item.Literal)
+	if item.Literal != nil {
+		io.Copy(io.Discard, item.Literal)
+	}
 }
 
 // FetchItemDataBinarySection holds data returned by FETCH BINARY[].
+//
+// Literal is nil if the server returned NIL for this section.
 type FetchItemDataBinarySection struct {
 	Section *imap.FetchItemBinarySection
 	Literal imap.LiteralReader
@@ -335,7 +341,9 @@ type FetchItemDataBinarySection struct {
 func (FetchItemDataBinarySection) fetchItemData() {}
 
 func (item FetchItemDataBinarySection) discard() {
-	io.Copy(io.Discard, item.Literal)
+	if item.Literal != nil {
+		io.Copy(io.Discard, item.Literal)
+	}
 }
 
 // FetchItemDataFlags holds data returned by FETCH FLAGS.
@@ -419,18 +427,26 @@ type FetchMessageBuffer struct {
 func (buf *FetchMessageBuffer) populateItemData(item FetchItemData) error {
 	switch item := item.(type) {
 	case FetchItemDataBodySection:
-		b, err := io.ReadAll(item.Literal)
-		if err != nil {
-			return err
+		var b []byte
+		if item.Literal != nil {
+			var err error
+			b, err = io.ReadAll(item.Literal)
+			if err != nil {
+				return err
+			}
 		}
 		if buf.BodySection == nil {
 			buf.BodySection = make(map[*imap.FetchItemBodySection][]byte)
 		}
 		buf.BodySection[item.Section] = b
 	case FetchItemDataBinarySection:
-		b, err := io.ReadAll(item.Literal)
-		if err != nil {
-			return err
+		var b []byte
+		if item.Literal != nil {
+			var err error
+			b, err = io.ReadAll(item.Literal)
+			if err != nil {
+				return err
+			}
 		}
 		if buf.BinarySection == nil {
 			buf.BinarySection = make(map[*imap.FetchItemBinarySection][]byte)
